@@ -5,7 +5,7 @@ import ast
 from typing import Dict, List, Optional, Set, Tuple
 
 from ..collect import default_inline, Path, callee_is, run_paths
-from ..common import construct, where
+from ..common import construct, where, with_helpers
 from ..flow import NONE, Value, contains, show, subterms
 from ..loader import AnalysisError, ClassInfo, FuncInfo, Program, walk_shallow
 from ..report import Report
@@ -301,3 +301,69 @@ def run(p: Program, rep: Report, tier: str) -> None:
         else:
             rep.ok("R17.4", f"{cname} inherits all read views")
     rep.require_instances("R17.4", 8)
+
+    # ---------------------------------------------------------------- R17.5 who may change the two representations
+    # Only the constructor and MutableMultiMapping's audited mutators (R17.1) change _list / _dict. Any other method of a mapping
+    # class (FormData.close dropping the closed uploads from the pair list ...) or any function outside the classes that changes one
+    # of them leaves keys()/len()/`in` (from _dict) and multi_items()/getlist() (from _list) describing different contents.
+    MUT = ("append", "extend", "insert", "remove", "pop", "clear", "sort", "reverse", "update", "setdefault", "popitem", "__setitem__", "__delitem__")
+    audited = {m.fq for m in mmm.methods.values()} | {f_.fq for m in mmm.methods.values() for f_ in with_helpers(p, m)}
+    n_w = 0
+    for f_ in p.module(DS).all_funcs:
+        if f_.name in ("__init__", "__new__") or f_.fq in audited:
+            continue
+        for n in ast.walk(f_.node):
+            hit = None
+            if isinstance(n, ast.Call) and isinstance(n.func, ast.Attribute) and n.func.attr in MUT and isinstance(n.func.value, ast.Attribute) and n.func.value.attr in ("_list", "_dict"):
+                hit = n.func.value
+            elif isinstance(n, (ast.Assign, ast.AugAssign, ast.Delete)):
+                for t in (n.targets if isinstance(n, (ast.Assign, ast.Delete)) else [n.target]):
+                    base_ = t.value if isinstance(t, ast.Subscript) else t
+                    if isinstance(base_, ast.Attribute) and base_.attr in ("_list", "_dict"):
+                        hit = base_
+            if hit is None:
+                continue
+            owner = f_.cls
+            if owner is not None and mm not in p.mro(owner) and not any(c_.name in ("MultiMapping",) for c_ in p.mro(owner) if isinstance(c_, ClassInfo)):
+                continue  # another class's own _dict (Headers, ...)
+            n_w += 1
+            rep.violation("R17.5", construct(f_, text=f"changes {ast.unparse(hit)} outside the audited mutators"), where(f_, n),
+                          f"{f_.fq} changes `{ast.unparse(hit)}` (`{ast.unparse(n)[:60]}`), which only the constructor and MutableMultiMapping's mutators may do: the other representation "
+                          "is not updated, so keys()/len()/`in` and multi_items()/getlist() disagree afterwards")
+    if n_w == 0:
+        rep.ok("R17.5", "no method or function outside the constructor and the audited mutators changes _list / _dict of a multi-value mapping")
+    rep.require_instances("R17.5", 1)
+
+    # ---------------------------------------------------------------- R17.6 a query string means the same pairs as text and as bytes
+    # "a query mapping and a form mapping built from the same encoded pairs expose the same views": QueryParams parses a str and a
+    # bytes query (the ASGI form) with the same parser settings - blank values kept, percent-escapes unquoted with the parser's
+    # default codec (UTF-8, what str(q) / urlencode produce and what the form parser uses) - the bytes are only made text first.
+    qp = p.cls(f"{DS}:QueryParams")
+    qinit = qp.methods.get("__init__")
+    if qinit is None:
+        raise AnalysisError("QueryParams.__init__ vanished")
+    rep.analysed(qinit.fq)
+    pcalls = []
+    for f_ in with_helpers(p, qinit):
+        for c in ast.walk(f_.node):
+            if isinstance(c, ast.Call) and ast.unparse(c.func).split(".")[-1] in ("parse_qsl", "parse_qs"):
+                pcalls.append((f_, c))
+    if not pcalls:
+        rep.undecide("R17.6", "QueryParams.__init__: no parse_qsl call found (query parsed in an idiom outside the table)")
+    sigs = set()
+    for f_, c in pcalls:
+        kws = {k.arg: ast.unparse(k.value) for k in c.keywords if k.arg}
+        extra_pos = [ast.unparse(a) for a in c.args[1:]]
+        sigs.add((tuple(sorted(kws.items())), tuple(extra_pos)))
+        codec = {k: v for k, v in kws.items() if k in ("encoding", "errors")}
+        if kws.get("keep_blank_values") != "True" and extra_pos[:1] != ["True"]:
+            rep.violation("R17.6", construct(f_, text="parse without keep_blank_values"), where(f_, c), "QueryParams parses a query without keep_blank_values=True: pairs with an empty value disappear from every view")
+        elif codec and not (codec.get("encoding", "'utf-8'").strip("'\"").lower().replace("_", "-") in ("utf-8", "utf8") and codec.get("errors", "'replace'") == "'replace'"):
+            rep.violation("R17.6", construct(f_, text=f"parse_qsl with {codec}"), where(f_, c),
+                          f"QueryParams unquotes the percent-escapes of one input form with {codec}: the same encoded pairs (a=caf%C3%A9) give other text from the bytes form (ASGI query_string) "
+                          "than from the str form and from a form body - QueryParams(str(q).encode()) != q")
+        else:
+            rep.ok("R17.6", f"QueryParams parses with {ast.unparse(c)[:70]}")
+    if len(sigs) > 1:
+        rep.violation("R17.6", construct(qinit, text="str and bytes parsed with different settings"), where(qinit), f"QueryParams parses its input forms with different parser settings: {sorted(sigs)}")
+    rep.require_instances("R17.6", 2)
